@@ -531,6 +531,28 @@ static void mon_c04(World& w) {
         if (count[m->tag] == 0) { w.vio("C04:settled-not-delivered:q" + std::to_string(m->qos) + ":" + sn, "QoS " + std::to_string(m->qos) + " message tag " + std::to_string(m->tag) + " was acknowledged to the broker but never reached async_receive"); return; } }
 }
 
+// C20 (client level): a reason byte in an acknowledgement is accepted iff MQTT 5 lists it for that packet type ------------
+static void mon_c20(World& w) {
+    const Scenario& sc = w.sc; if (sc.rc_code < 0) return; const std::string sn = sc.family();
+    if (w.capped && w.cap_reason.rfind("REPLAY", 0) == 0) return;
+    uint8_t code = uint8_t(sc.rc_code); int t = sc.rc_type;
+    bool listed = ref::rc_listed(t, code), must = ref::rc_server_may_send(t, code);
+    // accepted <=> the client neither disconnected nor reconnected: exactly one handshake and no DISCONNECT written
+    bool disconnect_written = false; for (auto& e : w.broker->wire) if (e.c2b && !e.malformed && e.pkt.type == ref::DISCONNECT) disconnect_written = true;
+    bool accepted = w.broker->handshakes_ok == 1 && !disconnect_written;
+    char cs[8]; snprintf(cs, sizeof cs, "%02x", code);
+    if (accepted && !listed) w.vio(std::string("C20:client-accepts-unlisted:") + ref::ptype_name(t), std::string(ref::ptype_name(t)) + " with reason code 0x" + cs + " (not listed by MQTT 5 for this packet) was accepted by the client");
+    if (!accepted && must) w.vio(std::string("C20:client-rejects-server-code:") + ref::ptype_name(t), std::string(ref::ptype_name(t)) + " with reason code 0x" + cs + " (a Server may send it) was treated as malformed");
+    // an accepted code is reported with exactly that value
+    const OpRec* op = nullptr; for (auto& o : w.ops) if (is_user_op(o)) { op = &o; break; }
+    if (accepted && op && op->completions) {
+        int seen = -1;
+        if (t == ref::PUBACK || t == ref::PUBCOMP || (t == ref::PUBREC && code >= 0x80)) seen = op->rc;
+        if ((t == ref::SUBACK || t == ref::UNSUBACK) && !op->rcs.empty()) seen = op->rcs[0];
+        if (seen >= 0 && seen != code) w.vio(std::string("C20:value-changed:") + ref::ptype_name(t), std::string(ref::ptype_name(t)) + " reason code 0x" + cs + " reached the handler as " + std::to_string(seen));
+    }
+}
+
 void run_monitors(World& w) {
     uint32_t m = w.sc.monitors;
     mon_broker(w);
@@ -551,6 +573,7 @@ void run_monitors(World& w) {
     if (m & M_C14) mon_c14(w);
     if (m & M_C15) mon_c15(w);
     if (m & M_C16) mon_reject(w, "C16");
+    if (m & M_C20) mon_c20(w);
 }
 
 // ------------------------------------------------------------------ scenario sets
@@ -912,6 +935,20 @@ std::vector<Scenario> scenarios_for(const std::string& prop, int tier) {
                 else for (int vv : VQ) { int val = vv == -1 ? uint8_t(ph.reply[i]) + 1 : vv == -2 ? uint8_t(ph.reply[i]) - 1 : vv; if ((val & 0xFF) == uint8_t(ph.reply[i])) continue; std::string m = ph.reply; m[i] = char(val); add(ph, m, "subst"); } }
             add(ph, ph.reply + std::string("\x00", 1), "extend"); add(ph, ph.reply + ph.reply, "double");
         }
+    }
+    else if (prop == "C20") {
+        // every reason byte in every acknowledgement a broker sends in reply to a request, through the real client
+        struct T { int type; int on_type; std::vector<Action> script; };
+        std::vector<T> ts = { {ref::PUBACK, ref::PUBLISH, {RUN(), PUB(1, 1)}}, {ref::PUBREC, ref::PUBLISH, {RUN(), PUB(2, 1)}}, {ref::PUBCOMP, ref::PUBREL, {RUN(), PUB(2, 1)}},
+                              {ref::SUBACK, ref::SUBSCRIBE, {RUN(), SUB({{"a", 1}})}}, {ref::UNSUBACK, ref::UNSUBSCRIBE, {RUN(), UNSUB({"a"})}} };
+        for (auto& t : ts) for (int code = 0; code < 256; ++code) {
+            Scenario s = base(std::string("RC-") + ref::ptype_name(t.type) + "-" + std::to_string(code), t.script, tier ? F_CHUNK : 0, tier ? 1 : 0, M_C20); s.rc_type = t.type; s.rc_code = code;
+            ref::Packet a; a.type = uint8_t(t.type); a.pid = 1; a.has_pid = true; a.has_rc = true; a.rc = uint8_t(code); a.has_props = true; if (t.type == ref::SUBACK || t.type == ref::UNSUBACK) a.rcs = {uint8_t(code)};
+            s.broker.hostile.enabled = true; s.broker.hostile.on_type = t.on_type; s.broker.hostile.nth = 1; s.broker.hostile.raw = ref::encode(a); s.expect_all_success = false; v.push_back(s); }
+        // inbound QoS 2: PUBREL from the broker with every reason byte
+        for (int code = 0; code < 256; ++code) { Scenario s = base("RC-PUBREL-" + std::to_string(code), {RUN(), RECV(4), SUB({{"b/#", 2}}), BARRIER(), BPUB(2, 1)}, 0, 0, M_C20); s.rc_type = ref::PUBREL; s.rc_code = code;
+            ref::Packet a; a.type = ref::PUBREL; a.pid = 1; a.has_pid = true; a.has_rc = true; a.rc = uint8_t(code); a.has_props = true;
+            s.broker.hostile.enabled = true; s.broker.hostile.on_type = ref::PUBREC; s.broker.hostile.nth = 1; s.broker.hostile.raw = ref::encode(a); s.broker.hostile.also_normal_reply = false; s.expect_all_success = false; s.monitors &= ~M_C04; v.push_back(s); }
     }
     else if (prop == "C17") {
         v = publish_scenarios(M_C17, 0); for (auto& s : v) s.D = 1;
